@@ -169,16 +169,16 @@ def run(tier: str) -> Run:
     snaps: list = []
     outs = pit.run_all(plateau_args)
     rets = [o for o in outs if o.kind == 'return']
-    for o, sn in zip(outs, snaps, strict=True):
-        if o.kind == 'return':
-            pm.restore(sn)
     xs, ys = Rat.sym('x'), Rat.sym('y')
     slope = (idx(ys, 'slice(1, None, None)') - idx(ys, 'slice(None, -1, None)')) / (idx(xs, 'slice(1, None, None)') - idx(xs, 'slice(None, -1, None)'))
     want_gid = Rat.fn('concat', Rat.const(0), Rat.fn('cumsum', T.fn_cmp('>', T.fn_abs(slope), Rat.sym('atol', positive=True))))
     want_size = T.fn_cmp('>=', Rat.sym('bin_sizes', positive=True), Rat.sym('min_n', positive=True))
-    if len(rets) != 1:
-        r2.fail('find_plateaus', loc(pfi), {'problem': 'expected one returning path on sorted 1-d input', 'outcomes': [(o.kind, o.exc_type, o.where) for o in outs]}, key='paths')
-    else:
+    if not rets:
+        r2.fail('find_plateaus', loc(pfi), {'problem': 'no returning path on sorted 1-d input', 'outcomes': [(o.kind, o.exc_type, o.where) for o in outs]}, key='paths')
+    # an implementation may branch among returning paths (on the shape of the tolerance, say): the rule holds on each of them
+    for n_path, o_ret in enumerate(rets):
+        pm.restore(snaps[outs.index(o_ret)])
+        tag = '' if len(rets) == 1 else f' [returning path {n_path + 1} of {len(rets)}]'
         grouped = pm.groups
         gid = None
         if len(grouped) == 1:
@@ -190,11 +190,13 @@ def run(tier: str) -> Run:
         got = gid.term if isinstance(gid, SVar) else None
         # every input point belongs to a run: nothing may be selected away before the runs are formed
         if len(grouped) != 1:
-            r2.ok('all points are grouped', {'decided_by': 'R6 (no single group-by-label call to inspect)'}, nontrivial=False)
+            r2.ok('all points are grouped' + tag, {'decided_by': 'R6 (no single group-by-label call to inspect)'}, nontrivial=False)
         if len(grouped) == 1:
             pre = [k for v, k, r in pm.index if isinstance(k, SVar) and (r is grouped[0][0] or grouped[0][0].view_of is r)]
-            r2.check(not pre, 'all points are grouped', loc(pfi), {'selection_before_grouping': [T.show(k.term) if k.term is not None else repr(k) for k in pre][:2]},
+            r2.check(not pre, 'all points are grouped' + tag, loc(pfi), {'selection_before_grouping': [T.show(k.term) if k.term is not None else repr(k) for k in pre][:2]},
                      key='points-dropped')
+        if n_path:
+            continue
         # the mechanism (which expression the points are grouped by, how the size filter is written) is not a verdict: the bins are decided
         # semantically by R6 on a finite domain.  It is recorded for the reader of the evidence.
         mech = {'grouping_coordinate': T.show(got)[:300] if got is not None else None, 'documented_mechanism': T.show(want_gid)[:300],
@@ -227,23 +229,10 @@ def run(tier: str) -> Run:
         outs1 = pit1.run_all(args1)
         rets1 = [o for o in outs1 if o.kind == 'return']
         inst = f'find_plateaus[x={xdt}]'
-        if len(rets1) != 1:
+        if not rets1:
             r1.fail(inst, loc(pfi), {'outcomes': [(o.kind, o.exc_type, o.where) for o in outs1]}, key='derive-public')
             continue
-        pm1.restore(snaps1[outs1.index(rets1[0])])
-        if not pm1.groups:
-            r1.ok(inst, {'decided_by': 'R6 (no group-by-label mechanism to read the slope from)'}, nontrivial=False)
-            continue
-        gid1 = None
-        if len(pm1.groups) == 1:
-            recv1, gargs1, _ = pm1.groups[0]
-            for obj, where_, key, val in pm1.stores:
-                if where_ == 'coords' and gargs1 and key is gargs1[0] and (obj is recv1 or obj.view_of is recv1 or recv1.view_of is obj):
-                    gid1 = val
-        xs1, ys1 = Rat.sym('x'), Rat.sym('y')
-        slope1 = (idx(ys1, 'slice(1, None, None)') - idx(ys1, 'slice(None, -1, None)')) / (idx(xs1, 'slice(1, None, None)') - idx(xs1, 'slice(None, -1, None)'))
-        want1 = Rat.fn('concat', Rat.const(0), Rat.fn('cumsum', T.fn_cmp('>', T.fn_abs(slope1), Rat.sym('atol', positive=True))))
-        lossy1 = [dict(e.detail, where=e.where) for e in events(rets1[0], 'int-unit-conversion', 'narrowing-cast')]
+        lossy1 = [dict(e.detail, where=e.where) for o1 in rets1 for e in events(o1, 'int-unit-conversion', 'narrowing-cast')]
         r1.check(not lossy1, inst, loc(pfi), {'lossy_conversions': lossy1[:2], 'note': 'which bins come out is decided by R6'}, key='derive-public')
 
     r3 = run.rule('R3', 'collapse: low = bins.min, high = next representable above bins.max (float: nextafter; integer / datetime: one unit)', 4)
